@@ -18,7 +18,7 @@ def float_guarded(fn, bb):
     """Is block bb reachable only through a `... is Float` discriminant edge?"""
     for g in fn.guards_of(bb):
         d = fn.guard_desc(g)
-        if d[0] == "variant" and d[3] == "Float" and (d[2].endswith("numeric::Numeric") or d[2].endswith("numeric::Parity") or "Numeric" in d[2]):
+        if d[0] == "variant" and d[3] == "Float" and ("numeric::Numeric" in d[2] or "numeric::Parity" in d[2]):
             return True
     return False
 
